@@ -79,7 +79,12 @@ def streams(rng, tier):
     s1 = Stream("accessors-on-trees", "hcore", ops, judge=judge, rule=RULE)
     s2 = Stream("strict-prefixes", "hcore", pre, judge=judge, rule="every strict prefix of encW(tree) through every matching accessor must be err eoi")
     s1.shrinkable = s2.shrinkable = False
-    return [s1, s2]
+    # typed decoding through the ~190 registered Rust types: strict prefixes of valid encodings must be `err eoi`;
+    # re-framings (wider heads, indefinite containers / chunked strings) must give the value the model assigns and stop
+    # exactly at the end (a disagreement with the model on a successful decode is a failing input)
+    from verifkit.props import C01
+    typed = C01.typed_mutation_streams(rng, tier)
+    return [s1, s2] + typed
 
 
 def replay_streams(rp):
